@@ -1,7 +1,7 @@
 (* Extract/Driver.v — dispatch : sexp -> sexp, the single entry point of the extracted model *)
 From Coq Require Import List Bool Ascii String ZArith.
 From FM Require Import Base.Result Base.Str Base.Sexp Base.AstOp Model.Ast Model.FM Model.Ctc
-     Model.Queries Model.Sem Model.Ops Model.EqHash Model.PFM Format.Json Format.Glencoe Format.Xml Format.Uvl Model.Metrics Extract.Codec.
+     Model.Queries Model.Sem Model.Ops Model.EqHash Model.PFM Format.Json Format.Glencoe Format.Xml Format.Uvl Format.Afm Model.Metrics Extract.Codec.
 Import ListNotations.
 Open Scope string_scope.
 
@@ -248,6 +248,21 @@ Definition dispatch (req : sexp) : sexp :=
       else if String.eqb op "uvl_render" then
         match args with
         | [c] => match d_udoc c with Some c' => SStr (render c') | None => bad "udoc" end
+        | _ => bad "arity"
+        end
+      else if String.eqb op "afm_write" then
+        match args with
+        | [m] => match d_fm m with Some m' => e_result SStr (afm_write m') | None => bad "fm" end
+        | _ => bad "arity"
+        end
+      else if String.eqb op "afm_cst" then
+        match args with
+        | [m] => match d_fm m with Some m' => e_result e_adoc (afm_cst m') | None => bad "fm" end
+        | _ => bad "arity"
+        end
+      else if String.eqb op "afm_read_cst" then
+        match args with
+        | [c] => match d_adoc c with Some c' => e_result e_pfm (afm_read_cst c') | None => bad "adoc" end
         | _ => bad "arity"
         end
       else if String.eqb op "echo_fm" then
